@@ -2,8 +2,11 @@ package h
 
 import (
 	"fmt"
+	"strconv"
 	"strings"
 	"time"
+
+	"github.com/mgtv-tech/redis-GunYu/config"
 
 	"verifsim/rdbgen"
 	"verifsim/simrt"
@@ -211,8 +214,43 @@ func runC10(r *Run, stratum string) *Violation {
 }
 
 func runReplayCheck(r *Run, prop, stratum string, cfg PipeCfg, o StreamOpts) *Violation {
+	// a quarter of the runs CONTINUE a replay: the target already holds a resume position for this history (left by an
+	// earlier run of the tool) in the database the source's last SELECT mapped to, and the stream goes on behind that
+	// SELECT, in that source database, without repeating it. Nothing is interrupted from here on: a resumed start is
+	// ordinary operation, the database rules and the database map apply to the commands in front of the next SELECT too.
+	resumed := cfg.Resume && r.Gen().Choose("resumed-start", 4) == 0
+	if resumed {
+		nd := o.NumDBs
+		if nd <= 0 {
+			nd = 16
+		}
+		// the tool never stores a position inside a section of an excluded database (C02's state invariant): a
+		// reachable resume state lies in a database the rules admit
+		var ok []int
+		for d := 0; d < nd; d++ {
+			ex := false
+			if cfg.Filters != nil {
+				for _, b := range cfg.Filters.DbBlacklist {
+					ex = ex || b == d
+				}
+			}
+			if !ex {
+				ok = append(ok, d)
+			}
+		}
+		if len(ok) == 0 {
+			resumed = false
+		} else {
+			o.StartDB = ok[r.Gen().Choose("resume-db", len(ok))]
+		}
+	}
 	st := GenStream(r.Gen(), o)
 	ps := NewPipeSim(r, prop, cfg, st)
+	if resumed {
+		ps.srv.SetHash(cfg.DBM.Map(o.StartDB), ps.cpName, map[string]string{
+			ps.runID + "_runid": ps.runID, ps.runID + "_version": config.Version, ps.runID + "_offset": strconv.FormatInt(st.Base, 10)})
+		simrt.Probe("resumed_start")
+	}
 	expected := Reference(st, 0, cfg.DBM, cfg.Filters)
 	r.Sample = fmt.Sprintf("cfg{%s} stream{%s} expected=%d", cfg, describeStream(st, 12), len(expected))
 	r.NonTriv = len(expected) >= 2
